@@ -48,10 +48,17 @@ type sub05 struct {
 	mode    pb.SubscriptionList_Mode
 	polls   int
 	writer  []wop
+	// patient: the client lets time pass (every armed timer expires) between a
+	// sync_response and its next trigger / its half-close
+	patient bool
 }
 
 func (s sub05) String() string {
-	return fmt.Sprintf("%s target=%s prefix=%s:%s paths=%v polls=%d", strings.ToLower(s.mode.String()), s.target, s.pOrigin, s.pElems, s.paths, s.polls)
+	pt := ""
+	if s.patient {
+		pt = " patient-client"
+	}
+	return fmt.Sprintf("%s target=%s prefix=%s:%s paths=%v polls=%d%s", strings.ToLower(s.mode.String()), s.target, s.pOrigin, s.pElems, s.paths, s.polls, pt)
 }
 
 func (s sub05) request() *pb.SubscribeRequest {
@@ -139,6 +146,13 @@ func configs05(tier string) []xplore.Config {
 			}
 		}
 	}
+	// a client that idles between sync_response and the next trigger for longer
+	// than any time-out (no send is pending then, so nothing may expire)
+	for _, p := range []string{"a", "b"} {
+		for polls := 0; polls <= 2; polls++ {
+			add(sub05{target: "t1", paths: []string{p}, mode: pb.SubscriptionList_POLL, polls: polls, patient: true}, sb-1)
+		}
+	}
 	// concurrent writer
 	wb := 2
 	if tier == "thorough" {
@@ -182,13 +196,23 @@ func run05(cfg xplore.Config, ch vrt.Chooser, trace bool) (xplore.Outcome, *vrt.
 			st.returned = true
 			st.cancel()
 		})
+		idleC := make(chan struct{}, 1)
+		clientIdle := false
+		pause := func() {
+			if s.patient {
+				clientIdle = true
+				vrt.Recv(idleC)
+			}
+		}
 		if s.mode == pb.SubscriptionList_POLL {
 			vrt.GoNamed("client", func() {
 				for i := 0; i < s.polls; i++ {
 					vrt.Recv(syncC)
+					pause()
 					vrt.Send(st.pollC, struct{}{})
 				}
 				vrt.Recv(syncC)
+				pause()
 				vrt.Close(st.pollC) // EOF
 			})
 		}
@@ -201,7 +225,18 @@ func run05(cfg xplore.Config, ch vrt.Chooser, trace bool) (xplore.Outcome, *vrt.
 				wdone = true
 			})
 		}
-		vrt.Idle()
+		for {
+			vrt.Idle()
+			if !clientIdle {
+				break
+			}
+			// the patient client is waiting and nothing else can run: time passes
+			clientIdle = false
+			for vrt.FireAny() {
+				vrt.Idle()
+			}
+			vrt.Send(idleC, struct{}{})
+		}
 		out.Obs = fmt.Sprintf("%v|%s", st.status, renderLog(st.log))
 		out.Nontrivial = len(st.log) > 1
 		if !vrt.AllDone() || !st.returned || !wdone {
